@@ -534,7 +534,18 @@ func g05HTTPProxy(repo string, w *Out) error {
 	w.DefStr("localhost_direct_const", dplv)
 
 	// the two wrappers
-	ddMapsIDNA := false
+	ddMapsIDNA, ddStripsDot := false, false
+	checkASCIIHostname := func() error {
+		ah, err := f.Func("asciiHostname")
+		if err != nil {
+			return err
+		}
+		if !strings.Contains(f.Src(ah.Body), "if a, err := idna.Lookup.ToASCII(host); err == nil { return a }") ||
+			!strings.HasSuffix(f.Src(ah.Body), "return host }") {
+			return fmt.Errorf("asciiHostname: body is not the shape the model knows (idna.Lookup.ToASCII on non-ASCII names, identity otherwise)")
+		}
+		return nil
+	}
 	for _, wr := range []struct{ fn, pred, def string }{
 		{"HTTPProxy.directDomains", "hp.config.DirectDomains.Match(req.URL.Hostname())", "dd"},
 		{"HTTPProxy.directLocalhost", "hp.isLocalhost(req.URL.Hostname())", "dl"},
@@ -569,21 +580,34 @@ func g05HTTPProxy(repo string, w *Out) error {
 		case cond == wr.pred:
 		case wr.def == "dd" && (cond == "h := req.URL.Hostname(); hp.config.DirectDomains.Match(h) || hp.config.DirectDomains.Match(asciiHostname(h))"):
 			// the name as written and the name the transport connects to
-			ah, err := f.Func("asciiHostname")
+			if err := checkASCIIHostname(); err != nil {
+				return err
+			}
+			ddMapsIDNA = true
+		case wr.def == "dd" && cond == "matchesAnyForm(hp.config.DirectDomains, req.URL.Hostname())":
+			// as written, as the transport connects to it, each also without the trailing dot
+			if err := checkASCIIHostname(); err != nil {
+				return err
+			}
+			mf, err := f.Func("matchesAnyForm")
 			if err != nil {
 				return err
 			}
-			if !strings.Contains(f.Src(ah.Body), "if a, err := idna.Lookup.ToASCII(host); err == nil { return a }") ||
-				!strings.HasSuffix(f.Src(ah.Body), "return host }") {
-				return fmt.Errorf("asciiHostname: body is not the shape the model knows (idna.Lookup.ToASCII on non-ASCII names, identity otherwise)")
+			if len(mf.Type.Params.List) != 2 {
+				return fmt.Errorf("matchesAnyForm: expected (matcher, host)")
 			}
-			ddMapsIDNA = true
+			mb := renameIdent(renameIdent(f.Src(mf.Body), mf.Type.Params.List[0].Names[0].Name, "r"), mf.Type.Params.List[1].Names[0].Name, "host")
+			if mb != `{ ascii := asciiHostname(host) return r.Match(host) || r.Match(ascii) || r.Match(strings.TrimSuffix(host, ".")) || r.Match(strings.TrimSuffix(ascii, ".")) }` {
+				return fmt.Errorf("matchesAnyForm: body %s is not the shape the model knows", mb)
+			}
+			ddMapsIDNA, ddStripsDot = true, true
 		default:
 			return fmt.Errorf("%s: predicate is %q, expected %q", wr.fn, cond, wr.pred)
 		}
 	}
 	w.DefBool("wrappers_test_url_hostname", true)
 	w.DefBool("direct_domains_maps_idna", ddMapsIDNA)
+	w.DefBool("direct_domains_strips_dot", ddStripsDot)
 	// isLocalhost maps the name itself (C04 models and proves the classifier; here only where the mapping happens)
 	il, err := f.Func("HTTPProxy.isLocalhost")
 	if err != nil {
